@@ -106,7 +106,7 @@ class C09(Engine):
                 st["role"] = "emit"
                 st["mode"] = "write"
             stages.append(st)
-        cmd = {"form": form, "stages": stages, "bg": form in ("bare", "![]") and rng.random() < 0.08, "redir_conflict": rng.random() < 0.05, "reps": rng.choice((1, 1, 1, 5, 5, 25))}
+        cmd = {"form": form, "stages": stages, "bg": form in ("bare", "![]") and rng.random() < 0.08, "redir_conflict": rng.random() < 0.05, "reps": rng.choice((1, 1, 1, 5, 5, 25)), "error_raise": form != "!()" and rng.random() < 0.1}
         if form == "$[]" and stages[-1]["fm"] == "a_close":
             stages[-1]["fm"] = "a_ok"  # closing the terminal handed to an uncaptured alias is the alias's own doing
         cap = {1: 10**9, 5: 5000, 25: 1000}[cmd["reps"]]
@@ -133,7 +133,7 @@ class C09(Engine):
             "clock_seed": rng.randrange(1 << 30),
             "max_steps": 1_500_000,
         }
-        return {"seed": seed, "ops": ops, "knobs": knobs, "interactive": rng.random() < 0.3, "raise_error": rng.random() < 0.5}
+        return {"seed": seed, "ops": ops, "knobs": knobs, "interactive": rng.random() < 0.3, "raise_error": rng.random() < 0.5, "cmd_raise": rng.random() < 0.3}
 
     def case_valid(self, case):
         return bool(case["ops"])
@@ -211,6 +211,8 @@ class C09(Engine):
             else:
                 ctx.XSH.aliases[name] = self._make_alias(st, log)
                 names.append(f"{name} {sid}")
+        if cmd.get("error_raise") and names:
+            names[-1] = "@error_raise " + names[-1]  # per-command raising: the failure surfaces from inside the pipeline's end()
         line = " | ".join(names)
         if cmd["redir_conflict"]:
             line += " > rc_a.txt > rc_b.txt"
@@ -292,7 +294,7 @@ class C09(Engine):
         env = XSH.env
         env["XONSH_PROC_FREQUENCY"] = case["knobs"]["proc_freq"]
         env["XONSH_SUBPROC_RAISE_ERROR"] = bool(case["raise_error"])
-        env["XONSH_SUBPROC_CMD_RAISE_ERROR"] = False
+        env["XONSH_SUBPROC_CMD_RAISE_ERROR"] = bool(case.get("cmd_raise", False))
         env["XONSH_INTERACTIVE"] = bool(case["interactive"])
         signal.signal(signal.SIGINT, signal.default_int_handler)
         alias_log = []
